@@ -140,6 +140,14 @@ CHECKS = {
             "ordering, annotation, 9 filters); 19 host func names compared before/after importing the backend, in both "
             "import orders.",
             "Trusted: spec/Rel.tla; native base-query construction in harness/props/c15.py; SQLite 3.40."),
+    "C07": ("DESIGN.md 6/C07",
+            "TLC generates filter pairs differing in one string literal / field spelling (MC_C07); the SQL emitted by the "
+            "three dialects for each pair is a trace validated by TLC with the per-code-point SQL lexical automaton "
+            "SqlLex (Trace_Sql): non-interference verdict per pair",
+            "Exhaustive over 39 literal positions x 28 adversarial contents + 8 field positions x 11 spellings, x 3 "
+            "dialects x alias on/off (6.9k SQL pairs); SQLite additionally prepares every statement.",
+            "Trusted: spec/SqlLex.tla as the definition of SQL string-literal and quoted-identifier tokens (standard "
+            "SQL quoting: doubled quotes, no backslash escapes)."),
 }
 
 PENDING = ["C01", "C02", "C03", "C04", "C06", "C07", "C08", "C09", "C10", "C11", "C12", "C13", "C14", "C15",
